@@ -31,7 +31,8 @@ def sel : SSel := { first := [idt "a" 1], post := g, more := [(gc, [idt "b" 2], 
 def style : SRule := .style sel blk
 def unk : List Tok := [atk "@x", sp, idt "y", sp, semi]
 def media : SRule := .media [(true, false)] g [idt "print"] gc [sp1] (.cons style [sp1] (.cons (.comment (cps "in")) [] .nil))
-def psel : SPageSel := { name := some (cps "cover"), mid := [cps "m"], pseudo := some (cps "first") }
+def psel : SPageSel :=
+  { name := some (cps "cover"), mid := [cps "m"], pseudo := some (cps "first"), pseudoSp := [(true, false), (false, true)] }
 def mblk : SBlock := { last := some dTop }
 def pblk : SPageBlock :=
   { lead := [sp1], items := [(.item (.decl dTop), [sp1]), (.margin (cps "top-left") [(true, false)] gc mblk, [sp1])],
@@ -118,7 +119,8 @@ theorem sheet_wf : sheet.WF O M := by
     show PageWF O M psel pblk
     refine ⟨⟨?_, ?_⟩, ?_, ?_, by decide⟩
     · intro n hn; simp only [psel, Option.some.injEq] at hn; subst hn; exact ⟨⟨_, _, rfl, by decide⟩, by decide⟩
-    · intro n hn; simp only [psel, Option.some.injEq] at hn; subst hn; exact ⟨_, _, rfl, by decide⟩
+    · intro n hn; simp only [psel, Option.some.injEq] at hn; subst hn
+      exact Or.inl ⟨nameOk_of _ (by decide) ⟨_, _, rfl, by decide⟩, by decide⟩
     · intro q hq
       simp only [pblk, List.mem_cons, List.mem_nil_iff, or_false] at hq
       rcases hq with rfl | rfl
